@@ -98,6 +98,8 @@ func (e *seqEnv) step(i int, st Step) {
 			e.evictL1(k)
 		}
 		e.res.probe("evictions")
+	case len(st.Pipe) > 0:
+		e.pipeStep(i, st)
 	case st.Op != nil:
 		if e.dead[st.Conn] {
 			return
@@ -106,6 +108,8 @@ func (e *seqEnv) step(i int, st Step) {
 		proto := e.plan.Conns[st.Conn].Proto
 		op := *st.Op
 		alignClock(w)
+		exp := applyModel(e.ref, op)
+		w.KeepWaiting = func() bool { return !replyLooksComplete(proto, op, exp, cc.Unread()) }
 		if !w.Send(cc, encode(proto, op)) {
 			e.violate(i, "no_quiescence", op.Kind, "the system did not become quiescent within %d kernel steps after %s", w.MaxSteps, op)
 			return
@@ -114,7 +118,6 @@ func (e *seqEnv) step(i int, st Step) {
 		cc.Consume(len(reply))
 		closed := cc.C.ClosedByRend()
 		o := decodeReply(proto, op, reply, closed)
-		exp := applyModel(e.ref, op)
 		if e.opts.Record != nil {
 			*e.opts.Record = append(*e.opts.Record, canonObs(o))
 		}
@@ -226,6 +229,8 @@ type tierEntry struct {
 	Flags    uint32
 	Deadline int64
 	Broken   string
+	MetaExp  int64 // chunked: the expiry stored inside the metadata record (−1 for other tiers)
+	ChunkDl  []int64
 }
 
 func tierView(t *kernel.Tier, kind string) map[string]tierEntry {
@@ -234,7 +239,7 @@ func tierView(t *kernel.Tier, kind string) map[string]tierEntry {
 	if kind != "chunked" {
 		for _, k := range st.LiveKeys() {
 			en := st.Peek(k)
-			out[k] = tierEntry{Value: en.Value, Flags: en.Flags, Deadline: en.Deadline}
+			out[k] = tierEntry{Value: en.Value, Flags: en.Flags, Deadline: en.Deadline, MetaExp: -1}
 		}
 		return out
 	}
@@ -254,6 +259,7 @@ func tierView(t *kernel.Tier, kind string) map[string]tierEntry {
 		te.Flags = binary.BigEndian.Uint32(m.Value[4:8])
 		nchunks := int(binary.BigEndian.Uint32(m.Value[8:12]))
 		csize := int(binary.BigEndian.Uint32(m.Value[12:16]))
+		te.MetaExp = int64(binary.BigEndian.Uint32(m.Value[20:24]))
 		token := m.Value[24:40]
 		var val []byte
 		for i := 0; i < nchunks; i++ {
@@ -266,16 +272,14 @@ func tierView(t *kernel.Tier, kind string) map[string]tierEntry {
 				te.Broken = fmt.Sprintf("chunk %d carries another write's token", i)
 				break
 			}
-			if c.Deadline != m.Deadline {
-				te.Broken = fmt.Sprintf("chunk %d deadline %d differs from metadata deadline %d", i, c.Deadline, m.Deadline)
-			}
+			te.ChunkDl = append(te.ChunkDl, c.Deadline)
 			d := c.Value[16:]
 			if len(d) > csize {
 				d = d[:csize]
 			}
 			val = append(val, d...)
 		}
-		if te.Broken == "" || strings.Contains(te.Broken, "deadline") {
+		if te.Broken == "" {
 			if len(val) < length {
 				te.Broken = fmt.Sprintf("chunks hold %d bytes, metadata says %d", len(val), length)
 			} else {
@@ -372,4 +376,42 @@ func (e *seqEnv) stateHash(st Step) uint64 {
 		sb.WriteString("|" + st.Op.Kind)
 	}
 	return hash64(e.plan.Cfg.String(), sb.String())
+}
+
+// replyLooksComplete stops the idle clock advances (runs in which pool timers drive
+// progress) as soon as the client holds everything the reference map says the
+// command produces. The last reply element is the last thing rend does for a
+// command, so stopping then cannot cut a command short; if rend produces less than
+// the map expects the full idle budget is spent and the oracle reports it.
+func replyLooksComplete(proto string, op wire.Op, exp Expect, buf []byte) bool {
+	if len(buf) == 0 {
+		return false
+	}
+	o := decodeReply(proto, op, buf, false)
+	if o.Incomplete || o.Garbage != "" {
+		return false
+	}
+	if op.Kind == "get" {
+		if o.Status != "ok" {
+			return true
+		}
+		if len(o.Values) < len(exp.Hits) {
+			return false
+		}
+		if proto == "text" || op.Noop {
+			return o.Term >= 1
+		}
+		hit := map[int]bool{}
+		for _, v := range exp.Hits {
+			hit[v.Idx] = true
+		}
+		need := 0
+		for i := range op.Keys {
+			if !hit[i] && !(i < len(op.Quiets) && op.Quiets[i]) {
+				need++
+			}
+		}
+		return len(o.Misses) >= need
+	}
+	return o.Status != "none"
 }
